@@ -4,6 +4,7 @@ Property theorems only (model: Model.lean; proofs: Lemmas / Invariant / Converge
 `FactsC14.lean` is regenerated from cluster/sync.go and cluster/rpchandlers.go on every run.
 -/
 import SemaModel.C14.Witness
+import SemaModel.C14.Msgs
 import SemaModel.Generated.FactsC14
 namespace Sema.C14
 
@@ -41,6 +42,27 @@ theorem C14_chunks (cs : Nat) (hcs : 0 < cs) (c : Content) :
 example : messages 2 [1, 2, 3, 4] = [(0, [1, 2]), (1, [3, 4]), (2, [])] := by decide
 example : messages 2 [1, 2, 3] = [(0, [1, 2]), (1, [3]), (2, [])] := by decide
 example : messages 2 [] = [(0, [])] := by decide
+
+/-- `messages` is what the transition system sends: along the failure-free `sendShardFile n k` of a
+file `c` — the label sequence `sendLabels` (data chunks `fchunk`, the empty chunk `ffinal`, the removal),
+which is what the sequential program `sendFrom` executes and what a phase-2 goroutine of the
+concurrent program executes for the shard at the head of its list (`fnext`) — node `n` calls
+`RPCSendShard` for shard `k` with exactly `messages cs c` (`runMsgs`: the `(ChunkIndex, ChunkData)` of
+every `fchunk` / `ffinal` of `n` for `k` along the run, read off the states the labels are applied in).
+Hypotheses: the sender holds `c`, is not the owner, both run, no transfer of `k` is in flight. -/
+theorem C14_sender_emits_messages (cfg : Cfg N K) (htr : cfg.trunc0 = true) (n : N) (k : K) (c : Content)
+    (hne : n ≠ cfg.fowner k) (hus : cfg.up n = true) (huo : cfg.up (cfg.fowner k) = true) (s : St N K)
+    (hf : s.files n k = some c) (hidle : s.fph n k = .idle) (hok : s.failed n = false) :
+    sendFrom cfg noFault n k (chunks cfg.cs c).length 0 s = run cfg (sendLabels n k (chunks cfg.cs c).length) s ∧
+    runMsgs cfg n k (sendLabels n k (chunks cfg.cs c).length) s = messages cfg.cs c :=
+  ⟨sendFrom_eq_run cfg n k _ 0 s,
+   runMsgs_send cfg htr n k c hne hus huo _ 0 s (by omega)
+     ⟨hf, by rw [hidle]; rfl, fun h => absurd h (Nat.lt_irrefl 0), hok⟩⟩
+
+/-- non-vacuity: shard 7 = `[1,2,3]` from node 0 to node 1, chunk size 2 -/
+example : runMsgs (wCfg true) 0 7 (sendLabels 0 7 2) wS0 = [(0, [1, 2]), (1, [3]), (2, [])] := by decide
+example : runMsgs (wCfg true) 0 7 (sendLabels 0 7 (chunks 2 [1, 2, 3]).length) wS0 = messages 2 [1, 2, 3] :=
+  (C14_sender_emits_messages (wCfg true) rfl 0 7 [1, 2, 3] (by decide) rfl rfl wS0 rfl rfl rfl).2
 
 /-! ## no loss -/
 
@@ -139,6 +161,156 @@ def repoCfg (owner fowner : K → N) (sum : Content → Nat) : Cfg N K :=
 theorem C14_converges_repo (owner fowner : K → N) (sum : Content → Nat)
     (hs : SumOK (repoCfg owner fowner sum)) : Converges (repoCfg owner fowner sum) :=
   C14_converges _ hs (by show 0 < Gen.C14.chunkSize; decide) (by show Gen.C14.truncAtChunk0 = true; decide)
+
+/-! ## convergence of CONCURRENT rounds
+
+`C14_converges` lets the nodes run `Sync` one after the other, each node its destinations one after
+the other.  The code starts every node's `Sync` at the same time (one process per node, main.go) and,
+inside a node, one goroutine per destination in each phase, joined before the next phase
+(`Concurrent.lean`: `Pc`, `cstepT`, `crun`).  The following theorems are about EVERY schedule of those
+threads; the atomic steps are the labels of the transition system (one rpc at the receiver, one local
+transaction at the sender), so `C14_no_loss` / `C14_remove_only_after_confirm` hold in every state of
+every such run as well. -/
+
+/-- Repaired receiver: from ANY state reachable from `Init` (arbitrary interrupted earlier attempts),
+for EVERY interleaving `sched` of the main goroutines and per-destination goroutines of all started
+nodes: if every started node's `Sync` has returned at the end of the schedule (`finished`), then
+every one of them returned nil, and every record and shard file is exactly at its owner,
+byte-identical, nowhere else (`Placed`).  (That the program never blocks and always terminates:
+`C14_concurrent_never_blocks`.)
+Hypotheses: `SumOK`, chunk size > 0, truncating receiver; inside `ConvergesConc`: shard files
+non-empty, `Covers`, shard owners run, the walk lists every shard directory once (`fkeys.Nodup`).
+No fault label occurs in such a run by construction: a step of the program is a label of `Sync`
+itself, and a call that cannot be executed makes the node fail (`act`) — which the theorem excludes. -/
+theorem C14_converges_concurrent (cfg : Cfg N K) (hs : SumOK cfg) (hcs : 0 < cfg.cs) (htr : cfg.trunc0 = true) :
+    ConvergesConc cfg := by
+  intro ro fo nodes rkeys fkeys s0 s sched hne hfd hcov hnd h0 hr hfin
+  have hok : RoundOK cfg ro fo nodes rkeys fkeys := ⟨⟨hs, hcs, htr, hne, hfd⟩, hcov, hnd⟩
+  obtain ⟨hc, hreach⟩ := cinv_run hok s0 sched (cinit s) (cinv_init (inv_reachable hs h0.inv hr)) hr
+  obtain ⟨hdone, hp⟩ := cinv_finished hc hfin
+  have st := strict_reachable hs h0.inv h0.strict hreach
+  have hu : HoldersUp cfg _ := holdersUp_reachable h0.up hreach
+  refine ⟨⟨?_, ?_⟩, hdone⟩
+  · intro n k
+    by_cases e : n = cfg.owner k
+    · rw [if_pos e]
+      cases hro : ro k with
+      | none =>
+        cases h : (crun cfg rkeys fkeys sched (cinit s)).st.recs n k with
+        | none => rfl
+        | some v => have := st.r _ _ _ h; rw [hro] at this; cases this
+      | some v => rw [e]; exact hp.rown k v hro
+    · rw [if_neg e]
+      cases h : (crun cfg rkeys fkeys sched (cinit s)).st.recs n k with
+      | none => rfl
+      | some v => rw [← h]; exact hp.rnone n k (hu n k (Or.inl (by rw [h]; rfl))) e
+  · intro n k
+    by_cases e : n = cfg.fowner k
+    · rw [if_pos e]
+      cases hfo : fo k with
+      | none =>
+        cases h : (crun cfg rkeys fkeys sched (cinit s)).st.files n k with
+        | none => rfl
+        | some v => have := st.f n k (by simp [h]); rw [hfo] at this; cases this
+      | some c => rw [e]; exact hp.fown k c hfo
+    · rw [if_neg e]
+      cases h : (crun cfg rkeys fkeys sched (cinit s)).st.files n k with
+      | none => rfl
+      | some v => rw [← h]; exact hp.fnone n k (hu n k (Or.inr (by rw [h]; rfl))) e
+
+/-- the same for the configuration generated from the working tree (`CHUNKSIZE`, `truncAtChunk0`) -/
+theorem C14_converges_concurrent_repo (owner fowner : K → N) (sum : Content → Nat)
+    (hs : SumOK (repoCfg owner fowner sum)) : ConvergesConc (repoCfg owner fowner sum) :=
+  C14_converges_concurrent _ hs (by show 0 < Gen.C14.chunkSize; decide) (by show Gen.C14.truncAtChunk0 = true; decide)
+
+/-- "Every program runs to completion" is not an empty hypothesis.  (1) The concurrent program never
+blocks: in ANY state, a started node whose `Sync` has not returned has a thread that can take a step
+— a call that cannot be executed returns an error, nothing waits.  (2) In every state of every
+schedule from a reachable state the invariant `CInv` holds, in particular no started node has
+failed after its start (`NodeInv`: `failed n = false` at every control point after `boot`) — so the
+only way for a run to end is every node at `done`. -/
+theorem C14_concurrent_never_blocks (cfg : Cfg N K) (rkeys fkeys : List K) (c : CSt N K) (n : N)
+    (hun : cfg.up n = true) (hf : finished c n = false) :
+    ∃ t, (cstepT cfg rkeys fkeys t c).isSome = true :=
+  cstep_progress cfg rkeys fkeys c n hun hf
+
+/-- After the synchronisation "all previously stored points remain readable through any node": a
+read that arrives at ANY started node `m` is routed to the routing owner of the key and answered
+from what the owner stores (`readRec` / `readFile`); after a concurrent round (hypotheses of
+`C14_converges_concurrent`) it returns the original of every record and every shard file. -/
+theorem C14_readable_through_any_node (cfg : Cfg N K) (hs : SumOK cfg) (hcs : 0 < cfg.cs) (htr : cfg.trunc0 = true)
+    (ro fo : K → Option Content) (nodes : List N) (rkeys fkeys : List K) (s0 s : St N K) (sched : List (Tid N))
+    (hne : ∀ k c, fo k = some c → c ≠ []) (hfd : ∀ k, (fo k).isSome → cfg.up (cfg.fowner k) = true)
+    (hcov : Covers cfg ro fo nodes rkeys fkeys) (hnd : fkeys.Nodup)
+    (h0 : Init cfg ro fo s0) (hr : Reachable cfg s0 s)
+    (hfin : ∀ n, cfg.up n = true → finished (crun cfg rkeys fkeys sched (cinit s)) n = true)
+    (m : N) (hm : cfg.up m = true) :
+    (∀ k, (ro k).isSome → readRec cfg (crun cfg rkeys fkeys sched (cinit s)).st m k = ro k) ∧
+    (∀ k, (fo k).isSome → readFile cfg (crun cfg rkeys fkeys sched (cinit s)).st m k = fo k) := by
+  obtain ⟨⟨pr, pf⟩, _⟩ := C14_converges_concurrent cfg hs hcs htr ro fo nodes rkeys fkeys s0 s sched hne hfd hcov hnd h0 hr hfin
+  constructor
+  · intro k hk
+    have huo : cfg.up (cfg.owner k) = true := hcov.up _ (hcov.dst k hk)
+    simp only [readRec, hm, huo, and_self, if_true]
+    split
+    · rename_i e; rw [pr m k, if_pos e.symm]
+    · rw [pr (cfg.owner k) k, if_pos rfl]
+  · intro k hk
+    have huo : cfg.up (cfg.fowner k) = true := hfd k hk
+    simp only [readFile, hm, huo, and_self, if_true]
+    split
+    · rename_i e; rw [pf m k, if_pos e.symm]
+    · rw [pf (cfg.fowner k) k, if_pos rfl]
+
+/-- the same after a sequential round (`C14_converges`) -/
+theorem C14_readable_after_round (cfg : Cfg N K) (hs : SumOK cfg) (hcs : 0 < cfg.cs) (htr : cfg.trunc0 = true)
+    (ro fo : K → Option Content) (nodes : List N) (rkeys fkeys : List K) (order : List N) (s0 s : St N K)
+    (hne : ∀ k c, fo k = some c → c ≠ []) (hfd : ∀ k, (fo k).isSome → cfg.up (cfg.fowner k) = true)
+    (hcov : Covers cfg ro fo nodes rkeys fkeys) (h0 : Init cfg ro fo s0) (hr : Reachable cfg s0 s)
+    (hord : ∀ n ∈ order, cfg.up n = true)
+    (hall : ∀ n k, (s.recs n k).isSome ∨ (s.files n k).isSome → n ∈ order)
+    (m : N) (hm : cfg.up m = true) :
+    (∀ k, (ro k).isSome → readRec cfg (round cfg nodes rkeys fkeys order s) m k = ro k) ∧
+    (∀ k, (fo k).isSome → readFile cfg (round cfg nodes rkeys fkeys order s) m k = fo k) := by
+  obtain ⟨⟨pr, pf⟩, _⟩ := C14_converges cfg hs hcs htr ro fo nodes rkeys fkeys order s0 s hne hfd hcov h0 hr hord hall
+  constructor
+  · intro k hk
+    have huo : cfg.up (cfg.owner k) = true := hcov.up _ (hcov.dst k hk)
+    simp only [readRec, hm, huo, and_self, if_true]
+    split
+    · rename_i e; rw [pr m k, if_pos e.symm]
+    · rw [pr (cfg.owner k) k, if_pos rfl]
+  · intro k hk
+    have huo : cfg.up (cfg.fowner k) = true := hfd k hk
+    simp only [readFile, hm, huo, and_self, if_true]
+    split
+    · rename_i e; rw [pf m k, if_pos e.symm]
+    · rw [pf (cfg.fowner k) k, if_pos rfl]
+
+/-! non-vacuity (`Witness.lean`): three nodes; nodes 0 and 1 send to node 2 at the same time, node 0 runs
+two goroutines in phase 2; earlier attempts left record 0 on two nodes and the left-over `[4,5]` of shard
+3 at node 2.  `cSched` interleaves everything; all hypotheses hold, every `Sync` returns. -/
+set_option maxRecDepth 4000 in
+theorem cFinished : ∀ n, cCfg.up n = true → finished (crun cCfg cRkeys cFkeys cSched (cinit cS1)) n = true := by decide
+example : Placed cCfg cRo cFo (crun cCfg cRkeys cFkeys cSched (cinit cS1)).st :=
+  (C14_converges_concurrent cCfg cSumOK (by decide) rfl cRo cFo [0, 1, 2] cRkeys cFkeys cS0 cS1 cSched
+    (by decide) (by decide) cCovers (by decide) cInit cReach cFinished).1
+/-- before the round: record 0 on nodes 0 and 2, the owner's file of shard 3 is the left-over `[4,5]` -/
+example : cS1.recs 0 0 = some [9] ∧ cS1.recs 2 0 = some [9] ∧ cS1.files 2 3 = some [4, 5] ∧ cS1.files 1 3 = some [4, 5, 6] ∧
+    cS1.failed 0 = true ∧ cS1.failed 1 = true := by decide
+/-- in the middle of `cSched` three transfers are in flight at once — two of them into node 2 -/
+example :
+    let c := crun cCfg cRkeys cFkeys (cSched.take 19) (cinit cS1)
+    c.st.fph 0 2 = .sending 1 ∧ c.st.fph 1 3 = .sending 2 ∧ c.st.fph 0 4 = .sending 1 ∧
+      c.st.files 2 2 = some [1, 2] ∧ c.st.files 2 3 = some [4, 5, 6] ∧ c.st.files 1 4 = some [7] := by decide
+/-- reads: before the round a read of shard 3 through node 0 returns the left-over, afterwards the original -/
+example : readFile cCfg cS1 0 3 = some [4, 5] := by decide
+example : readFile cCfg (crun cCfg cRkeys cFkeys cSched (cinit cS1)).st 0 3 = some [4, 5, 6] :=
+  (C14_readable_through_any_node cCfg cSumOK (by decide) rfl cRo cFo [0, 1, 2] cRkeys cFkeys cS0 cS1 cSched
+    (by decide) (by decide) cCovers (by decide) cInit cReach cFinished 0 rfl).2 3 rfl
+/-- a node whose `Sync` has not returned can always take a step -/
+example : ∃ t, (cstepT cCfg cRkeys cFkeys t (crun cCfg cRkeys cFkeys (cSched.take 19) (cinit cS1))).isSome = true :=
+  C14_concurrent_never_blocks cCfg cRkeys cFkeys _ 0 rfl (by decide)
 
 /-! facts of the source the model relies on (T2), re-checked against the working tree on every run -/
 example : Gen.C14.truncEveryChunk = false := by decide
